@@ -29,7 +29,7 @@ def _call_block_pred(fn, suffix):
     return pred
 
 
-@obligation("CONF.proposal_filter", ["C01", "C02", "C09"], floor=3, kind="guard (CNF) + exhaustive arms",
+@obligation("CONF.proposal_filter", ["C01", "C02", "C09", "C03"], floor=3, kind="guard (CNF) + exhaustive arms",
             why="two unapplied membership entries, or entering/leaving a joint configuration out of turn")
 def proposal_filter(cx):
     sites = [s for s in cx.prog.writes.get(PCI, []) if s.kind == "write" and "stmt" in s.data and _in_msg_arm(cx, s, {"MsgPropose"}, depth=0)]
